@@ -85,7 +85,10 @@ class OggSpeexVComment(VCommentDict):
             if page.serial == info.serial:
                 pages.append(page)
                 complete = page.complete or (len(page.packets) > 1)
-        data = OggPage.to_packets(pages)[0]
+        packets = OggPage.to_packets(pages)
+        if not packets:
+            raise error("Missing metadata packet")
+        data = packets[0]
         super(OggSpeexVComment, self).__init__(data, framing=False)
         self._padding = len(data) - self._size
 
